@@ -331,6 +331,9 @@ class ShortTimeFourierTransformFrameComputer(LinearFilterBankFrameComputer):
         else:
             self._frame_length = int(0.001 * frame_length_ms * bank.sampling_rate)
         self._buf = np.empty(self._frame_length, dtype=np.float64)
+        # the last (up to) frame_length samples of the signal, reflected by finalize
+        self._hist = np.empty(self._frame_length, dtype=np.float64)
+        self._hist_len = 0
         if window_function is None:
             if frame_style == "causal":
                 window_function = GammaWindow()
@@ -465,6 +468,12 @@ class ShortTimeFourierTransformFrameComputer(LinearFilterBankFrameComputer):
         # length - buf_len may be negative, which will skip samples
         buf_len = self._buf_len
         chunk_len = len(chunk)
+        if chunk_len >= self._frame_length:
+            self._hist[:] = chunk[chunk_len - self._frame_length :]
+        elif chunk_len:
+            self._hist[: self._frame_length - chunk_len] = self._hist[chunk_len:]
+            self._hist[self._frame_length - chunk_len :] = chunk
+        self._hist_len = min(self._frame_length, self._hist_len + chunk_len)
         total_len = chunk_len + buf_len
         noncausal_first = self._frame_style == "centered"
         noncausal_first &= self._first_frame
@@ -564,7 +573,18 @@ class ShortTimeFourierTransformFrameComputer(LinearFilterBankFrameComputer):
             pad_right = (num_frames - 1) * frame_shift + frame_length - buf_len
             pad_right -= pad_left
             coeffs = np.empty((num_frames, self.num_coeffs), dtype=self._chunk_dtype)
-            frames = np.pad(self._buf[-buf_len:], (pad_left, pad_right), "symmetric",)
+            # the right pad reflects the end of the signal, not just of the remainder
+            hist_len = self._hist_len
+            frames = np.concatenate(
+                [
+                    np.pad(self._buf[-buf_len:], (pad_left, 0), "symmetric"),
+                    np.pad(
+                        self._hist[frame_length - hist_len :],
+                        (0, pad_right),
+                        "symmetric",
+                    )[hist_len:],
+                ]
+            )
             for frame_idx in range(num_frames):
                 frame = frames[
                     frame_idx * frame_shift : frame_idx * frame_shift + frame_length
@@ -573,6 +593,7 @@ class ShortTimeFourierTransformFrameComputer(LinearFilterBankFrameComputer):
         else:
             coeffs = np.empty((0, self.num_coeffs), dtype=self._chunk_dtype)
         self._buf_len = 0
+        self._hist_len = 0
         self._started = False
         self._first_frame = True
         return coeffs
